@@ -28,11 +28,20 @@ fn compact_only(g: &GenAf) -> bool {
     }
 }
 
-fn emit(out: &mut Out, rng: &mut Rng, g: &GenAf, af: &AAFramework<usize>, name: &str, range: bool) {
+fn emit(out: &mut Out, rng: &mut Rng, g: &GenAf, af: &AAFramework<usize>, name: &str, range: bool, warm: Option<&AAFramework<usize>>) {
     out.case(&format!("encoders/{}/{}", name, if range { "range" } else { "plain" }));
     out.inp(&format!("recipe {}", g.recipe));
     write_build(out, &g.build);
     let enc = encoder_by_name(name);
+    if let Some(w) = warm {
+        // the SAME encoder object has encoded another framework before (as the solvers do, one
+        // component after the other): nothing of that may leak into this encoding
+        out.inp("warm 1");
+        let mut scratch: Box<dyn SatSolver> = Box::new(crustabri::sat::CadicalSolver::default());
+        let _ = guarded(|| {
+            if range && name != "st" { enc.encode_constraints_and_range(w, scratch.as_mut()) } else { enc.encode_constraints(w, scratch.as_mut()) }
+        });
+    }
     let sh = new_shared(Fault::None);
     let mut solver = new_recording(&sh);
     let r = guarded(|| {
@@ -161,8 +170,20 @@ pub fn run(rng: &mut Rng, count: usize, thorough: bool, extra: &[String], out: &
                 continue;
             }
             for range in [false, true] {
-                emit(out, rng, &g, &af, name, range);
+                emit(out, rng, &g, &af, name, range, None);
                 produced += 1;
+                if exhaustive.is_none() && rng.chance(1, 3) {
+                    // a second use of one encoder object: first a funnel or another generated framework
+                    let w = if rng.chance(1, 2) {
+                        let (n, a, r) = funnel_with(rng, &[&[2, 2, 2, 2, 2], &[6, 6], &[4, 8]]);
+                        GenAf { build: Build::Iccma(n, a), recipe: r }
+                    } else {
+                        GenAf { build: g.build.clone(), recipe: g.recipe }
+                    };
+                    let waf = build_af(&w.build);
+                    emit(out, rng, &g, &af, name, range, Some(&waf));
+                    produced += 1;
+                }
             }
         }
     }
